@@ -39,7 +39,7 @@ def budget(tier):
 @st.composite
 def _cases(draw, tier):
     v = draw(genargs.legal_vectors(nmax=(8, 6, 4), numinst_max=2))
-    return {'v': v}
+    return {'v': v, 'prior': draw(genargs.prior_runs())}
 
 
 def strategy(tier):
@@ -105,6 +105,7 @@ def _argv(w, outdir):
 
 def run_case(case):
     v = case['v']
+    genargs.run_prior(case.get('prior'))
     # 1. the legal vector is accepted
     outdir = genargs.fresh_outdir('legal')
     argv = genargs.build_argv(v, outdir)
